@@ -4,7 +4,6 @@
 -/
 import SkyllhModel.Proofs.Par
 import SkyllhModel.Proofs.ParStatus
-import SkyllhModel.Generated.C09
 import Mathlib.Tactic
 
 open Par
@@ -137,6 +136,33 @@ theorem c09_order (g : α → β) (args : List α) (ncpu : Nat) (h : 1 ≤ ncpu)
     r = args.map g := by
   rw [c09_no_partial_results _ σ k r hend, C09.expected_mkCfg_pure g args ncpu h]
 
+/-- **Order for a function that depends on the process and the local task number** (the per-process
+random state): the expected list is, chunk after chunk of `array_split` in pid order, the chunk mapped
+with `f pid t` — so with `c09_split_partition` entry `i` of the result is the result of input `i`,
+computed by the process that owns it. -/
+theorem c09_expected_mapIdx (f : Nat → Nat → α → β) (args : List α) (ncpu : Nat) (h : 1 ≤ ncpu)
+    (fault : Nat → Option Fault) (logs : Bool) :
+    expected (mkCfg f args ncpu fault logs) =
+      ((arraySplit args ncpu).mapIdx (fun p c => c.mapIdx (f p))).flatten := by
+  have hp := c09_split_partition args ncpu h
+  have hl : (arraySplit args ncpu).length = ncpu - 1 + 1 := by rw [hp.2.1]; omega
+  unfold expected mkCfg full
+  simp only
+  rw [← hl, C09.flatMap_range_getD (arraySplit args ncpu) (fun p c => c.mapIdx (f p))]
+
+theorem C09.length_flatten_mapIdx (l : List (List α)) (F : Nat → List α → List β)
+    (hF : ∀ p c, (F p c).length = c.length) : ((l.mapIdx F).flatten).length = l.flatten.length := by
+  simp only [List.length_flatten]
+  congr 1
+  apply List.ext_getElem <;> simp [hF]
+
+/-- exactly one result per input, also for a function that depends on process and task number -/
+theorem c09_expected_length (f : Nat → Nat → α → β) (args : List α) (ncpu : Nat) (h : 1 ≤ ncpu)
+    (fault : Nat → Option Fault) (logs : Bool) :
+    (expected (mkCfg f args ncpu fault logs)).length = args.length := by
+  rw [c09_expected_mapIdx f args ncpu h, C09.length_flatten_mapIdx _ _ (by simp),
+    (c09_split_partition args ncpu h).1]
+
 /-- **Determinism**: the returned list depends on the configuration (function incl. the per-process
 random state — `f` may depend on pid and local task number —, arguments, number of processes) only,
 not on the completion order of the processes. -/
@@ -146,16 +172,17 @@ theorem c09_deterministic (cfg : Cfg α β) (σ₁ σ₂ : Nat → Agent) (k₁ 
 
 /-- **No deadlock**: in every state, reachable or not, in which `parallelize` has not ended, the
 master or one of the children can make a step that lowers the ranking function `pot`. -/
-theorem c09_no_deadlock (cfg : Cfg α β) (s : State (MPhase β) β) (h : s.m.terminal = false) :
+theorem c09_no_deadlock (cfg : Cfg α β) (s : State (MPhase β) β) (h : s.m.terminal = false)
+    (hnr : s.m ≠ .recv) :
     ∃ a, ValidAgent cfg.nchild a ∧ pot cfg (step cfg s a) < pot cfg s :=
-  exists_productive cfg s h
+  exists_productive cfg s h hnr
 
 /-- **Never hangs**: under weak fairness (every process gets a turn again and again) every run of the
 gather loop ends — with a result or with an error — whatever the faults and the completion order.
 (ranking function `pot`; every step either leaves the state unchanged or lowers it) -/
-theorem c09_terminates (cfg : Cfg α β) (σ : Nat → Agent) (hf : Fair cfg.nchild σ) :
+theorem c09_terminates (cfg : Cfg α β) (hnp : NoPartial cfg) (σ : Nat → Agent) (hf : Fair cfg.nchild σ) :
     ∃ k, (run cfg σ k).m.terminal = true :=
-  terminates cfg σ hf
+  terminates cfg hnp σ hf
 
 /-- without faults `parallelize` never raises -/
 theorem c09_no_error_without_fault (cfg : Cfg α β) (hnf : ∀ j, cfg.fault j = none) (σ : Nat → Agent)
@@ -165,7 +192,7 @@ theorem c09_no_error_without_fault (cfg : Cfg α β) (hnf : ∀ j, cfg.fault j =
 /-- **Progress without faults**: every fair fault-free run ends with the complete, ordered result. -/
 theorem c09_progress_no_fault (cfg : Cfg α β) (hnf : ∀ j, cfg.fault j = none) (σ : Nat → Agent)
     (hf : Fair cfg.nchild σ) : ∃ k, (run cfg σ k).m = .done (expected cfg) := by
-  obtain ⟨k, hk⟩ := terminates cfg σ hf
+  obtain ⟨k, hk⟩ := terminates cfg (fun j => by simp [hnf j, partialFault]) σ hf
   refine ⟨k, ?_⟩
   cases hm : (run cfg σ k).m with
   | done r => rw [c09_no_partial_results cfg σ k r hm]
@@ -180,9 +207,9 @@ theorem c09_fault_never_returns (cfg : Cfg α β) (j : Nat) (heff : Effective cf
 /-- **Fails loudly**: if some child raises at one of its tasks, leaves with any exit code at one of
 its tasks, or dies after its result was queued (delivered or lost), every fair run ends with an
 error: never a result, never a hang. -/
-theorem c09_fault_loud (cfg : Cfg α β) (j : Nat) (heff : Effective cfg j) (σ : Nat → Agent)
-    (hf : Fair cfg.nchild σ) : ∃ k, (run cfg σ k).m = .error := by
-  obtain ⟨k, hk⟩ := terminates cfg σ hf
+theorem c09_fault_loud (cfg : Cfg α β) (hnp : NoPartial cfg) (j : Nat) (heff : Effective cfg j)
+    (σ : Nat → Agent) (hf : Fair cfg.nchild σ) : ∃ k, (run cfg σ k).m = .error := by
+  obtain ⟨k, hk⟩ := terminates cfg hnp σ hf
   refine ⟨k, ?_⟩
   cases hm : (run cfg σ k).m with
   | done r => exact absurd hm (never_done cfg j heff σ k r)
@@ -191,11 +218,31 @@ theorem c09_fault_loud (cfg : Cfg α β) (j : Nat) (heff : Effective cfg j) (σ 
 
 /-- the statement of the design (`c09_fault_loud_statement`), now a theorem for the current code -/
 def c09_fault_loud_statement : Prop :=
-  ∀ (cfg : Cfg Nat Nat) (σ : Nat → Agent), (∃ j, Effective cfg j) → Fair cfg.nchild σ →
+  ∀ (cfg : Cfg Nat Nat) (σ : Nat → Agent), NoPartial cfg → (∃ j, Effective cfg j) → Fair cfg.nchild σ →
     ∃ k, (run cfg σ k).m = .error
 
 theorem c09_fault_loud_holds : c09_fault_loud_statement :=
-  fun cfg σ ⟨j, hj⟩ hf => c09_fault_loud cfg j hj σ hf
+  fun cfg σ hnp ⟨j, hj⟩ hf => c09_fault_loud cfg hnp j hj σ hf
+
+/-- the same claim for a child that dies *while its result is being written into the pipe* (possible as
+soon as the result is larger than the pipe buffer) — false for the current code -/
+def c09_partial_write_loud_statement : Prop :=
+  ∀ (cfg : Cfg Nat Nat) (σ : Nat → Agent),
+    (∃ j c, j < cfg.nchild ∧ cfg.fault j = some (.exitQueuedPartial c)) → Fair cfg.nchild σ →
+    ∃ k, (run cfg σ k).m.terminal = true
+
+/-- 2 processes, 4 tasks, round-robin: the master takes the truncated message with
+`rqueue.get(block=False)` and blocks in the receive for ever (open finding, reproduced on the code with
+200 kB results) -/
+theorem c09_partial_write_hang_counterexample : ¬ c09_partial_write_loud_statement := by
+  intro h
+  obtain ⟨k, hk⟩ := h cfgPartial (sched [] 1) ⟨0, 3, by decide, rfl⟩ (sched_fair [] 1)
+  by_cases hlt : k < 10
+  · have : ∀ k < 10, (run cfgPartial (sched [] 1) k).m.terminal = false := by decide
+    simp [this k hlt] at hk
+  · obtain ⟨d, rfl⟩ : ∃ d, k = 10 + d := ⟨k - 10, by omega⟩
+    rw [recv_forever cfgPartial (sched [] 1) 10 partial_recv d] at hk
+    simp [MPhase.terminal] at hk
 
 /-! non-vacuity: fair schedules exist, the hypotheses are met by concrete configurations, and the
 model really reaches the claimed ends -/
@@ -219,35 +266,60 @@ def c09_orig_terminates_statement : Prop :=
   ∀ (cfg : Cfg Nat Nat) (σ : Nat → Agent), Fair cfg.nchild σ →
     ∃ k, (Orig.run cfg σ k).m.terminal = true
 
-/-- (i) a child that exits with code 0 without a result makes the polling loop spin for ever -/
-theorem c09_orig_hang_exit0_counterexample : ¬ c09_orig_terminates_statement := by
-  intro h
-  obtain ⟨k, hk⟩ := h cfgExit0 (sched [] 1) (sched_fair [] 1)
-  have := Orig.never_ends_of_stuck cfgExit0 (sched [] 1) 10 (by decide) (Or.inl exit0_stuck) k
-  simp [this] at hk
+/-- (i) a child that exits with code 0 without a result makes the polling loop spin for ever:
+2 processes, 4 tasks, `os._exit(0)` at the child's first task, round-robin schedule -/
+theorem c09_orig_hang_exit0_counterexample :
+    ∃ σ, Fair cfgExit0.nchild σ ∧ ∀ k, (Orig.run cfgExit0 σ k).m.terminal = false :=
+  ⟨sched [] 1, sched_fair [] 1,
+    Orig.never_ends_of_stuck cfgExit0 (sched [] 1) 10 (by decide) (Or.inl exit0_stuck)⟩
 
 /-- (ii) a child that dies between `rqueue.put` and the log sentinel blocks the master in
-`lqueue.get()` -/
-theorem c09_orig_hang_after_queued_counterexample : ¬ c09_orig_terminates_statement := by
+`lqueue.get()`: 2 processes, 4 tasks, exit code 3 after the result was delivered, round-robin -/
+theorem c09_orig_hang_after_queued_counterexample :
+    ∃ σ, Fair cfgAfterQueued.nchild σ ∧ ∀ k, (Orig.run cfgAfterQueued σ k).m.terminal = false :=
+  ⟨sched [] 1, sched_fair [] 1,
+    Orig.never_ends_of_stuck cfgAfterQueued (sched [] 1) 12 (by decide) (Or.inr afterQueued_stuck)⟩
+
+/-- (iii) child A raises while child B finishes first (schedule `preRaise`, then round-robin): A's
+iteration consumes B's result, B's iteration waits for ever (exit code 0, empty queue) -/
+theorem c09_orig_hang_result_consumed_counterexample :
+    ∃ σ, Fair cfgRaise.nchild σ ∧ ∀ k, (Orig.run cfgRaise σ k).m.terminal = false :=
+  ⟨sched preRaise 2, sched_fair preRaise 2,
+    Orig.never_ends_of_stuck cfgRaise (sched preRaise 2) 12 (by decide) (Or.inl raise_stuck)⟩
+
+theorem c09_orig_terminates_counterexample : ¬ c09_orig_terminates_statement := by
   intro h
-  obtain ⟨k, hk⟩ := h cfgAfterQueued (sched [] 1) (sched_fair [] 1)
-  have := Orig.never_ends_of_stuck cfgAfterQueued (sched [] 1) 12 (by decide) (Or.inr afterQueued_stuck) k
-  simp [this] at hk
+  obtain ⟨σ, hf, hn⟩ := c09_orig_hang_exit0_counterexample
+  obtain ⟨k, hk⟩ := h cfgExit0 σ hf
+  simp [hn k] at hk
 
-/-- (iii) child A raises while child B finishes first: A's iteration consumes B's result, B's
-iteration waits for ever (exit code 0, empty queue) -/
-theorem c09_orig_hang_result_consumed_counterexample : ¬ c09_orig_terminates_statement := by
-  intro h
-  obtain ⟨k, hk⟩ := h cfgRaise (sched preRaise 2) (sched_fair preRaise 2)
-  have := Orig.never_ends_of_stuck cfgRaise (sched preRaise 2) 12 (by decide) (Or.inl raise_stuck) k
-  simp [this] at hk
+/-! ### bounded work ("within bounded time" on the model, no fairness needed) -/
 
-/-! ### obligations on the current source (constants regenerated from `skyllh/core/multiproc.py`) -/
+/-- number of state-changing steps among the first `k` steps of a run -/
+def Par.work (cfg : Cfg α β) (σ : Nat → Agent) : Nat → Nat
+  | 0 => 0
+  | k+1 => Par.work cfg σ k + (if pot cfg (run cfg σ (k+1)) < pot cfg (run cfg σ k) then 1 else 0)
 
-/-- The model's master never blocks for ever on a queue: every step that cannot proceed is a stutter
-step after which the exit codes are looked at again.  The current source has no `get()` of the result
-or log queues without `block=False` / `timeout` inside `parallelize`. -/
-theorem c09_no_blocking_get_for_current_source : Gen.C09.blockingGets = 0 := by decide
+/-- **Bounded work**: whatever the schedule (fair or not) and the faults, a run makes at most
+`pot cfg init` steps that change the state; every other step is a wait (sleeping poll, timed-out `get`,
+`join`).  A gather loop that re-queues or re-polls without bound breaks this. -/
+theorem c09_bounded_work (cfg : Cfg α β) (σ : Nat → Agent) (k : Nat) :
+    Par.work cfg σ k + pot cfg (run cfg σ k) ≤ pot cfg (init : State (MPhase β) β) := by
+  induction k with
+  | zero => simp [Par.work, run]
+  | succ k ih =>
+    simp only [Par.work]
+    rcases step_eq_or_dec cfg (run cfg σ k) (σ k) with he | hd
+    · have : run cfg σ (k+1) = run cfg σ k := by simp [run, he]
+      rw [this]; simp; exact ih
+    · have hd' : pot cfg (run cfg σ (k+1)) < pot cfg (run cfg σ k) := by simpa [run] using hd
+      simp [hd']; omega
+
+/-- the bound, explicit: linear in the number of tasks (3 per task of a child, 1 per task of the master)
+plus 9 per child and 3 -/
+theorem c09_pot_init (cfg : Cfg α β) : pot cfg (init : State (MPhase β) β) =
+    sumTo cfg.nchild (fun j => 3 * ((cfg.chunk (j+1)).length + 3)) + ((cfg.chunk 0).length + 3) := by
+  simp [pot, init, initChild, childPot, stepsLeft, masterLeft]
 
 /-! ### the status queue (`Model/ParStatus.lean`): a pipe of finite capacity in front of the exit -/
 
